@@ -367,6 +367,63 @@ def r7_session_roundtrip(ctx):
   ctx.sample(R, {'sequences': n, 'queries': len(queries)})
 
 
+
+def r8_shipped_files_load(ctx, R='C12.R8'):
+  """Every shipped recipes/*.json is handed, as parsed JSON, to the repository's own load_quantization_recipe on a
+  fresh manager (path interpreter): it loads without raising, and the re-export, loaded into another fresh manager,
+  resolves the probe (operator, scope) pairs identically. (Round 18: the loader read 'op_config' of a no_quantize
+  entry that a shipped hand-written recipe omits; exported recipes always carry the key, so R7 could not see it.)"""
+  import itertools  # pylint: disable=g-import-not-at-top
+  from sa.rules import c11  # pylint: disable=g-import-not-at-top
+  rs = ctx.rule(R, 'every shipped recipes/*.json loads through load_quantization_recipe (fresh manager) and survives export -> load', floor=6)
+  RMq = 'recipe_manager:RecipeManager'
+  exp = ctx.repo.func(f'{RMq}.get_quantization_recipe')
+  load = ctx.repo.func(f'{RMq}.load_quantization_recipe')
+  res = ctx.repo.func(f'{RMq}.get_quantization_configs')
+  OP, _, _, _, _ = c11._domain(ctx)  # pylint: disable=protected-access
+  it = c11._mk_interp(ctx)  # pylint: disable=protected-access
+  queries = list(itertools.product([OP['FULLY_CONNECTED'], OP['CONV_2D']], ['x/y;', 'StatefulPartitionedCall:0;', 'zz;']))
+  rs.exhaustive = True
+
+  def fresh():
+    o = it.construct(RMq, [], {}, None, 0)
+    if not isinstance(o, Obj):
+      raise index.AnalysisError(f'{RMq}.__init__ is not interpretable')
+    return o
+
+  def table(m):
+    out = []
+    for tq, s in queries:
+      q = it.outcomes(res, [m, tq, s], copy_args=False)
+      if len(q) != 1 or q[0].kind != 'return' or not isinstance(q[0].value, tuple):
+        return None
+      alg, cfg = q[0].value
+      out.append((str(getattr(alg, 'value', alg)), cfg.frozen() if isinstance(cfg, Obj) else repr(cfg)))
+    return out
+  import copy  # pylint: disable=g-import-not-at-top
+  for rel, data in sorted(ctx.repo.json_files.items()):
+    if not rel.startswith(common.RECIPE_DIR) or not isinstance(data, list):
+      continue
+    ctx.instance(R)
+    a = fresh()
+    l = it.outcomes(load, [a, copy.deepcopy(data)], copy_args=False)
+    if not ctx.check(R, len(l) == 1 and l[0].kind == 'return', rel, rel, 'load into a fresh manager',
+                     f'the shipped recipe does not load: {[x.short()[:140] for x in l]}'):
+      continue
+    e = it.outcomes(exp, [a], copy_args=False)
+    if len(e) != 1 or e[0].kind != 'return' or not isinstance(e[0].value, list):
+      ctx.check(R, False, rel, rel, 'export', f'export of the loaded recipe not decided: {[x.short()[:80] for x in e]}')
+      continue
+    ctx.check(R, len(e[0].value) == len(data), rel, rel, f'{len(e[0].value)} exported rules', f'the file has {len(data)} rules (distinct regex / operation pairs are all kept)') if len({(d.get("regex"), d.get("operation")) for d in data if isinstance(d, dict)}) == len(data) else None
+    b = fresh()
+    l2 = it.outcomes(load, [b, common.json_roundtrip(e[0].value)], copy_args=False)
+    if not ctx.check(R, len(l2) == 1 and l2[0].kind == 'return', rel, rel, 'export -> load', f'the re-exported recipe does not load: {[x.short()[:140] for x in l2]}'):
+      continue
+    ta, tb = table(a), table(b)
+    if ta is None or tb is None:
+      continue   # resolution of this file's configs is outside the interpreter's domain: decided by R7 / C11 on their lattices
+    ctx.check(R, ta == tb, rel, rel, 'resolution after export -> load', 'the re-exported recipe resolves a probe (operator, scope) differently from the shipped file')
+
 def run(ctx):
   ctx.assume('json.dumps/json.loads map str-enum members to their string value and keep dict/list/bool/int structure')
   r1_field_agreement(ctx)
@@ -376,6 +433,7 @@ def run(ctx):
   r5_fixpoint(ctx)
   r6_recipe_py(ctx)
   r7_session_roundtrip(ctx)
+  r8_shipped_files_load(ctx)
 
 LEVEL_TEXT = (
     'Static decision of the structural clauses of C12: for every value of the '
@@ -387,6 +445,7 @@ LEVEL_TEXT = (
     'samples with 3 recipes; it does not establish byte-identical '
     're-quantization.'
     ' Update sequence -> export -> JSON -> load into a fresh manager resolves identically (sequences of up to three updates, string-valued configs included).'
+    ' Every shipped recipe file is loaded by the repository\'s own loader on the path interpreter (C12.R8).'
 )
 LEVEL_NOTE = (
     'Trusted: CPython ast, the sa interpreter for the control fragment '
